@@ -569,7 +569,7 @@ func c05CheckFile(ctx *core.Ctx, b *c05Batch, f *c05File, c05 bool, sample bool)
 		if c05 {
 			c05CheckChunk(ctx, b, &kk, col, f, data, chunks[ci], raw, &md[ci].MetaData, pages, detail)
 		} else {
-			c06CheckChunk(ctx, &kk, col, f, chunks[ci], pages, detail)
+			c06CheckChunk(ctx, &kk, col, f, chunks[ci], raw != nil && len(raw.MinValues) != len(raw.NullPages), pages, detail)
 		}
 	}
 }
@@ -663,11 +663,11 @@ func c05CheckChunk(ctx *core.Ctx, b *c05Batch, k *c05Kind, col c05Col, f *c05Fil
 				ctx.Fail("L1", "column-index-panic "+col.kind, fmt.Sprint(v.panicked), detail(nil))
 			}
 		case v.n != len(pages):
-			if !(k.short && nullPages > 0) {
+			{
 				ctx.Fail("L1", "index-numpages "+col.kind, fmt.Sprintf("NumPages()=%d, %d pages read", v.n, len(pages)), detail(nil))
 			}
 		default:
-			shifted := k.short && nullPages > 0 // entries are misaligned: already reported above
+			shifted := raw != nil && len(raw.MinValues) != len(raw.NullPages) // entries are misaligned: already reported above
 			for i, p := range pages {
 				d := func() map[string]any {
 					return detail(map[string]any{"page": i, "entry_min": k.text(v.min[i]), "entry_max": k.text(v.max[i]), "null_page": v.nullPage[i], "null_count": v.nullCount[i]})
@@ -833,7 +833,7 @@ func c05TruncAllFF(vals []c05Val, lim int) bool {
 
 // ---------------------------------------------------------------- C06 on files
 
-func c06CheckChunk(ctx *core.Ctx, k *c05Kind, col c05Col, f *c05File, cc parquet.ColumnChunk, pages []c05ReadPage,
+func c06CheckChunk(ctx *core.Ctx, k *c05Kind, col c05Col, f *c05File, cc parquet.ColumnChunk, short bool, pages []c05ReadPage,
 	detail func(map[string]any) map[string]any) {
 	ctx.Hist("chunk-kind", col.kind)
 	ci, err := cc.ColumnIndex()
@@ -909,7 +909,7 @@ func c06CheckChunk(ctx *core.Ctx, k *c05Kind, col c05Col, f *c05File, cc parquet
 		}
 		cause := ""
 		switch {
-		case k.short && hasNullPage:
+		case short:
 			cause = " flba-null-page-index-short"
 		case hasNaNPage:
 			cause = " nan-page"
@@ -925,7 +925,7 @@ func c06CheckChunk(ctx *core.Ctx, k *c05Kind, col c05Col, f *c05File, cc parquet
 			ctx.Fail("L1", "search-out-of-range"+cause, "Search returned an index outside 0..NumPages", d)
 		case pr.first >= 0 && got > pr.first:
 			ctx.Fail("L1", "missed-page"+cause, fmt.Sprintf("the value occurs in page %d but Search returned %d (NumPages=%d)", pr.first, got, len(pages)), d)
-		case got < len(pages) && view.panicked == nil && got < len(view.min) && !(k.short && hasNullPage):
+		case got < len(pages) && view.panicked == nil && got < len(view.min) && !short:
 			// the returned page's recorded bounds must contain the probe (NaN bounds contain everything: Compare is 0)
 			if view.nullPage[got] || (!k.isNaN(view.min[got]) && k.cmp(pr.v, view.min[got]) < 0) || (!k.isNaN(view.max[got]) && k.cmp(pr.v, view.max[got]) > 0) {
 				ctx.Fail("L1", "search-bounds-exclude"+cause, "Search returned a page whose recorded bounds do not contain the probe", d)
